@@ -46,6 +46,9 @@ int main(int argc, char** argv) {
 			double err = 0, scale = 1; for(auto e : S) scale = std::max(scale, std::abs(e));
 			for(L i = 0; i < std::min(q, want); ++i) for(L j = 0; j < std::min(q, want); ++j) { if(upper ? (j < i) : (j > i)) continue; double s = 0; for(L k = 0; k <= std::min(i, j); ++k) { double a = upper ? A[k][i] : A[i][k]; double b = upper ? A[k][j] : A[j][k]; s += a * b; } err = std::max(err, std::abs(s - S[std::size_t(i * n + j)])); }
 			if(err > 50 * double(n) * 2.3e-16 * scale) violation(K + "reconstruction", "factor * factor' differs from the selected triangle by " + std::to_string(err));
+			{ double errF = 0; L const qq = std::min(q, want); if(L(F.rotated().size()) < q) violation(K + "returned-block-too-narrow", "the returned block has fewer columns than its order");  // the same residual read through the returned view (row-major operands return q rows of full width: only .size() is documented)
+				else { for(L i = 0; i < qq; ++i) for(L j = 0; j < qq; ++j) { if(upper ? (j < i) : (j > i)) continue; double s = 0; for(L k = 0; k <= std::min(i, j); ++k) { double a = upper ? F[k][i] : F[i][k]; double b = upper ? F[k][j] : F[j][k]; s += a * b; } errF = std::max(errF, std::abs(s - S[std::size_t(i * n + j)])); }
+					if(errF > 50 * double(n) * 2.3e-16 * scale && !(err > 50 * double(n) * 2.3e-16 * scale)) violation(K + "returned-view-reconstruction", "the selected triangle of the RETURNED view does not reproduce the input (residual " + std::to_string(errF) + ") although the operated view does"); } }
 			bool other = true; for(L i = 0; i < n; ++i) for(L j = 0; j < n; ++j) if(upper ? (j < i) : (j > i)) other &= (A[i][j] == S[std::size_t(i * n + j)]); if(!other) violation(K + "other-triangle-modified", "the triangle that was not selected was modified");
 			for(L i = 0; i < n; ++i) for(L j = 0; j < n; ++j) A[i][j] = FILL; if(Rb.stray()) violation(K + "outside-view-written", "elements outside the operated view were overwritten"); count("computed");
 		} catch(assertion_failure const&) { count("rejected:assertion"); } catch(std::exception const&) { count("rejected:exception"); }
